@@ -576,4 +576,404 @@ theorem fwd_spec {N : List Term} {ev : Ev} {R : Rel} (hev : Correct N ev R) (obj
         · exact hvn e) w r
 
 
+/-- `_fwd(a, obj, set())` with fuel `|N| + 1`: exactly the nodes reachable from `a` in one or more
+    steps (that pass the end filter), and the fuel is never exhausted -/
+theorem fwd_top {N : List Term} {ev : Ev} {R : Rel} (hev : Correct N ev R) (hR : Iso N R)
+    (obj : Option Term) (a : Term) :
+    (fwd ev true obj (N.length + 1) a []).ok = true ∧
+    ∀ x y, (x, y) ∈ (fwd ev true obj (N.length + 1) a []).out ↔
+      x = a ∧ okPos obj y = true ∧ TransGen R a y := by
+  have hV : ∀ v ∈ a :: N, ∀ w, R v w → w ∈ a :: N := by
+    intro v hv w r
+    rcases hR v w r with e | ⟨_, hw⟩
+    · exact e ▸ hv
+    · exact List.mem_cons_of_mem _ hw
+  have S := fwd_spec hev obj hV (N.length + 1) a [] (List.mem_cons_self ..) (by simp)
+    (by rw [unseen_nil]; simp)
+  refine ⟨S.ok, fun x y => ⟨S.sound x y, ?_⟩⟩
+  rintro ⟨rfl, hok, ht⟩
+  have reach : ∀ v, ReflTransGen R x v → v ∈ (fwd ev true obj (N.length + 1) x []).seen := by
+    intro v hv
+    induction hv with
+    | refl => exact S.self
+    | tail _ r ih => exact (S.closed _ ih (by simp) _ r).1
+  obtain ⟨v, hv, r⟩ := TransGen.tail'_iff.mp ht
+  obtain ⟨x', hx'⟩ := (S.closed v (reach v hv) (by simp) y r).2 hok
+  have := (S.sound x' y hx').1
+  exact this ▸ hx'
+
+/-- `?` : one step, no recursion -/
+theorem fwdLoop_once (rec : Term → List Term → Dfs) (obj : Option Term) : ∀ (L : List Pair) (seen : List Term),
+    (fwdLoop rec false obj L seen).out = L.filter (fun so => okPos obj so.2) ∧
+    (fwdLoop rec false obj L seen).ok = true := by
+  intro L
+  induction L with
+  | nil => intro seen; simp [fwdLoop]
+  | cons so rest ih =>
+    intro seen
+    obtain ⟨h1, h2⟩ := ih seen
+    by_cases hok : okPos obj so.2 = true <;> simp [fwdLoop, hok, h1, h2]
+
+theorem fwd_once (ev : Ev) (obj : Option Term) (n : Nat) (a : Term) (seen : List Term) :
+    (fwd ev false obj (n + 1) a seen).out = (ev (some a) none).filter (fun so => okPos obj so.2) ∧
+    (fwd ev false obj (n + 1) a seen).ok = true :=
+  fwdLoop_once _ obj _ _
+
+/-! `_bwd` is `_fwd` on the converse evaluator, with the pairs swapped back -/
+
+def Dfs.mirror (d : Dfs) : Dfs := ⟨d.out.map (fun r => (r.2, r.1)), d.seen, d.ok⟩
+
+theorem bwdLoop_mirror {rec rec' : Term → List Term → Dfs} (h : ∀ o seen, rec o seen = (rec' o seen).mirror)
+    (more : Bool) : ∀ (L : List Pair) (seen : List Term),
+    bwdLoop rec more L seen = (fwdLoop rec' more none (L.map (fun r => (r.2, r.1))) seen).mirror := by
+  intro L
+  induction L with
+  | nil => intro seen; simp [bwdLoop, fwdLoop, Dfs.mirror]
+  | cons so rest ih =>
+    intro seen
+    by_cases hc : (more && !decide (so.1 ∈ seen)) = true
+    · simp only [bwdLoop, hc, if_true, List.map_cons, fwdLoop, okPos, h, ih]
+      simp [Dfs.mirror, Function.comp_def]
+    · simp only [bwdLoop, hc, List.map_cons, fwdLoop, okPos, ih]
+      simp [Dfs.mirror]
+
+theorem bwd_mirror (ev : Ev) (more : Bool) : ∀ (n : Nat) (o : Term) (seen : List Term),
+    bwd ev more n o seen = (fwd (invEval ev) more none n o seen).mirror := by
+  intro n
+  induction n with
+  | zero => intro o seen; simp [bwd, fwd, Dfs.mirror]
+  | succ n ih =>
+    intro o seen
+    simp only [bwd, fwd]
+    exact bwdLoop_mirror ih more _ _
+
+theorem bwd_top {N : List Term} {ev : Ev} {R : Rel} (hev : Correct N ev R) (hR : Iso N R) (b : Term) :
+    (bwd ev true (N.length + 1) b []).ok = true ∧
+    ∀ x y, (x, y) ∈ (bwd ev true (N.length + 1) b []).out ↔ y = b ∧ TransGen R x b := by
+  obtain ⟨h1, h2⟩ := fwd_top (inv_correct hev) (inv_iso hR) none b
+  rw [bwd_mirror]
+  refine ⟨h1, fun x y => ?_⟩
+  simp only [Dfs.mirror, List.mem_map]
+  constructor
+  · rintro ⟨⟨p, q⟩, hm, he⟩
+    simp only [Prod.mk.injEq] at he
+    obtain ⟨rfl, rfl⟩ := he
+    obtain ⟨e, _, t⟩ := (h2 p q).mp hm
+    exact ⟨e, transGen_swap.mp t⟩
+  · rintro ⟨rfl, t⟩
+    exact ⟨(y, x), (h2 y x).mpr ⟨rfl, rfl, transGen_swap.mpr t⟩, rfl⟩
+
+theorem bwd_once (ev : Ev) (n : Nat) (b : Term) (seen : List Term) :
+    (∀ x y, (x, y) ∈ (bwd ev false (n + 1) b seen).out ↔ (x, y) ∈ ev none (some b)) ∧
+    (bwd ev false (n + 1) b seen).ok = true := by
+  rw [bwd_mirror]
+  obtain ⟨h1, h2⟩ := fwd_once (invEval ev) none n b seen
+  refine ⟨fun x y => ?_, h2⟩
+  simp only [Dfs.mirror, h1, List.mem_map, List.mem_filter, okPos, and_true, invEval]
+  constructor
+  · rintro ⟨⟨p, q⟩, ⟨⟨u, v⟩, hm, he'⟩, he⟩
+    simp only [Prod.mk.injEq] at he he'
+    obtain ⟨rfl, rfl⟩ := he
+    obtain ⟨rfl, rfl⟩ := he'
+    exact hm
+  · intro hm
+    exact ⟨(y, x), ⟨(x, y), hm, rfl⟩, rfl⟩
+
+/-! both ends free -/
+
+theorem mem_allStarts (ev : Ev) (fuel : Nat) : ∀ (L : List Pair) (seen : List Term) (p : Pair),
+    p ∈ (allStarts ev fuel L seen).1 ↔
+      ∃ so ∈ L, so.1 ∉ seen ∧ p ∈ (fwd ev true none fuel so.1 []).out := by
+  intro L
+  induction L with
+  | nil => intro seen p; simp [allStarts]
+  | cons so rest ih =>
+    intro seen p
+    by_cases hs : so.1 ∈ seen
+    · simp only [allStarts, hs, if_true, ih, List.mem_cons, exists_eq_or_imp, not_true_eq_false,
+        false_and, false_or]
+    · simp only [allStarts, hs, if_false, List.mem_append, ih, List.mem_cons, exists_eq_or_imp,
+        not_false_eq_true, true_and, mem_sinsert, not_or]
+      constructor
+      · rintro (h | ⟨so', h1, ⟨_, h2⟩, h3⟩)
+        · exact Or.inl h
+        · exact Or.inr ⟨so', h1, h2, h3⟩
+      · rintro (h | ⟨so', h1, h2, h3⟩)
+        · exact Or.inl h
+        · by_cases e : so'.1 = so.1
+          · exact Or.inl (e ▸ h3)
+          · exact Or.inr ⟨so', h1, ⟨e, h2⟩, h3⟩
+
+theorem allStarts_ok (ev : Ev) (fuel : Nat) : ∀ (L : List Pair) (seen : List Term),
+    (∀ so ∈ L, (fwd ev true none fuel so.1 []).ok = true) → (allStarts ev fuel L seen).2 = true := by
+  intro L
+  induction L with
+  | nil => intro seen _; simp [allStarts]
+  | cons so rest ih =>
+    intro seen h
+    have h1 := h so (List.mem_cons_self ..)
+    have h2 := fun s => ih s (fun so' hso' => h so' (List.mem_cons_of_mem _ hso'))
+    by_cases hs : so.1 ∈ seen <;> simp [allStarts, hs, h1, h2]
+
+theorem mem_allFwd {g : Graph} {ev : Ev} {R : Rel} (hev : Correct (nodes g) ev R) (hR : Iso (nodes g) R)
+    (m : Mod) (x y : Term) :
+    (x, y) ∈ (allFwd g ev m ((nodes g).length + 1)).1 ↔
+      closure m R x y ∧ x ∈ nodes g ∧ y ∈ nodes g := by
+  have hz : (x, y) ∈ (nodes g).map (fun n => (n, n)) ↔ x = y ∧ x ∈ nodes g := by
+    simp only [List.mem_map, Prod.mk.injEq]
+    constructor
+    · rintro ⟨n, hn, rfl, rfl⟩; exact ⟨rfl, hn⟩
+    · rintro ⟨rfl, hn⟩; exact ⟨x, hn, rfl, rfl⟩
+  have hone : (x, y) ∈ ev none none ↔ R x y ∧ x ∈ nodes g ∧ y ∈ nodes g := by
+    rw [hev none none x y]; simp [Restr]
+  have hmore : (x, y) ∈ (allStarts ev ((nodes g).length + 1) (ev none none) []).1 ↔
+      TransGen R x y ∧ x ∈ nodes g ∧ y ∈ nodes g := by
+    rw [mem_allStarts]
+    constructor
+    · rintro ⟨⟨a, b⟩, hab, _, hm⟩
+      obtain ⟨_, _, h3⟩ := ((hev none none a b).mp hab).2
+      obtain ⟨ha, _⟩ := h3 rfl rfl
+      obtain ⟨rfl, _, t⟩ := ((fwd_top hev hR none a).2 x y).mp hm
+      exact ⟨t, ha, (transGen_iso hR).mem_right t ha⟩
+    · rintro ⟨t, hx, _⟩
+      obtain ⟨b, r, _⟩ := TransGen.head'_iff.mp t
+      refine ⟨(x, b), (hev none none x b).mpr ⟨r, by simp [Restr, hx, hR.mem_right r hx]⟩, by simp, ?_⟩
+      exact ((fwd_top hev hR none x).2 x y).mpr ⟨rfl, rfl, t⟩
+  cases m with
+  | zeroOrOne =>
+    simp only [allFwd, Mod.zero, Mod.more, if_true, Bool.false_eq_true, if_false, List.mem_append, hz, hone,
+      closure]
+    constructor
+    · rintro (⟨rfl, h⟩ | ⟨r, h⟩)
+      · exact ⟨Or.inl rfl, h, h⟩
+      · exact ⟨Or.inr r, h⟩
+    · rintro ⟨rfl | r, hx, hy⟩
+      · exact Or.inl ⟨rfl, hx⟩
+      · exact Or.inr ⟨r, hx, hy⟩
+  | zeroOrMore =>
+    simp only [allFwd, Mod.zero, Mod.more, if_true, List.mem_append, hz, hmore, closure,
+      reflTransGen_iff_eq_or_transGen]
+    constructor
+    · rintro (⟨rfl, h⟩ | ⟨r, h⟩)
+      · exact ⟨Or.inl rfl, h, h⟩
+      · exact ⟨Or.inr r, h⟩
+    · rintro ⟨rfl | r, hx, hy⟩
+      · exact Or.inl ⟨rfl, hx⟩
+      · exact Or.inr ⟨r, hx, hy⟩
+  | oneOrMore =>
+    simp only [allFwd, Mod.zero, Mod.more, Bool.false_eq_true, if_false, if_true, List.nil_append, hmore,
+      closure]
+
+theorem allFwd_ok {g : Graph} {ev : Ev} {R : Rel} (hev : Correct (nodes g) ev R) (hR : Iso (nodes g) R)
+    (m : Mod) : (allFwd g ev m ((nodes g).length + 1)).2 = true := by
+  cases hm : m.more
+  · simp [allFwd, hm]
+  · simp only [allFwd, hm, if_true]
+    exact allStarts_ok _ _ _ _ (fun so _ => (fwd_top hev hR none so.1).1)
+
+/-! the `done` filter -/
+
+theorem mem_dedupInto : ∀ (L done : List Pair) (p : Pair), p ∈ dedupInto done L ↔ p ∈ L ∧ p ∉ done := by
+  intro L
+  induction L with
+  | nil => intro done p; simp [dedupInto]
+  | cons x xs ih =>
+    intro done p
+    by_cases hx : x ∈ done
+    · simp only [dedupInto, hx, if_true, ih, List.mem_cons]
+      constructor
+      · rintro ⟨h1, h2⟩; exact ⟨Or.inr h1, h2⟩
+      · rintro ⟨h1 | h1, h2⟩
+        · exact absurd (h1 ▸ hx) h2
+        · exact ⟨h1, h2⟩
+    · simp only [dedupInto, hx, if_false, List.mem_cons, ih, not_or]
+      constructor
+      · rintro (h | ⟨h1, _, h3⟩)
+        · exact ⟨Or.inl h, h ▸ hx⟩
+        · exact ⟨Or.inr h1, h3⟩
+      · rintro ⟨h1 | h1, h2⟩
+        · exact Or.inl h1
+        · by_cases e : p = x
+          · exact Or.inl e
+          · exact Or.inr ⟨h1, e, h2⟩
+
+theorem nodup_dedupInto : ∀ (L done : List Pair), (dedupInto done L).Nodup := by
+  intro L
+  induction L with
+  | nil => intro done; simp [dedupInto]
+  | cons x xs ih =>
+    intro done
+    by_cases hx : x ∈ done
+    · simp only [dedupInto, hx, if_true]; exact ih done
+    · simp only [dedupInto, hx, if_false, List.nodup_cons]
+      refine ⟨fun h => ?_, ih _⟩
+      exact ((mem_dedupInto xs (x :: done) x).mp h).2 (List.mem_cons_self ..)
+
+theorem nodup_zeroPairs (s o : Option Term) : (zeroPairs s o).Nodup := by
+  cases s <;> cases o <;> simp [zeroPairs]
+  split <;> simp
+
+theorem mem_zeroPairs (s o : Option Term) (x y : Term) :
+    (x, y) ∈ zeroPairs s o ↔
+      (s ≠ none ∨ o ≠ none) ∧ x = y ∧ (∀ a, s = some a → x = a) ∧ (∀ b, o = some b → y = b) := by
+  cases s with
+  | none =>
+    cases o with
+    | none => simp [zeroPairs]
+    | some b =>
+      simp only [zeroPairs, List.mem_singleton, Prod.mk.injEq]
+      constructor
+      · rintro ⟨rfl, rfl⟩; simp
+      · rintro ⟨_, rfl, _, h⟩; exact ⟨h b rfl, h b rfl⟩
+  | some a =>
+    cases o with
+    | none =>
+      simp only [zeroPairs, List.mem_singleton, Prod.mk.injEq]
+      constructor
+      · rintro ⟨rfl, rfl⟩; simp
+      · rintro ⟨_, rfl, h, _⟩; exact ⟨h a rfl, h a rfl⟩
+    | some b =>
+      simp only [zeroPairs]
+      split
+      · next e =>
+        subst e
+        simp only [List.mem_singleton, Prod.mk.injEq]
+        constructor
+        · rintro ⟨rfl, rfl⟩; simp
+        · rintro ⟨_, rfl, h, _⟩; exact ⟨h a rfl, h a rfl⟩
+      · next e =>
+        simp only [List.not_mem_nil, false_iff]
+        rintro ⟨_, rfl, h1, h2⟩
+        exact e ((h1 a rfl).symm.trans (h2 b rfl))
+
+/-- `MulPath.eval` never yields a pair twice — whatever the inner evaluator does -/
+theorem mul_nodup (g : Graph) (ev : Ev) (m : Mod) (s o : Option Term) : (mulEval g ev m s o).Nodup := by
+  simp only [mulEval]
+  rw [List.nodup_append]
+  refine ⟨?_, nodup_dedupInto _ _, ?_⟩
+  · split
+    · exact nodup_zeroPairs s o
+    · simp
+  · intro a ha b hb e
+    subst e
+    exact ((mem_dedupInto _ _ a).mp hb).2 ha
+
+/-- the fuel `|nodes g| + 1` is never exhausted -/
+theorem mulRun_ok {g : Graph} {ev : Ev} {R : Rel} (hev : Correct (nodes g) ev R) (hR : Iso (nodes g) R)
+    (m : Mod) (s o : Option Term) : (mulRun g ev m s o).2 = true := by
+  cases s with
+  | some a =>
+    cases hm : m.more
+    · simp only [mulRun, hm]; exact (fwd_once ev o _ a []).2
+    · simp only [mulRun, hm]; exact (fwd_top hev hR o a).1
+  | none =>
+    cases o with
+    | some b =>
+      cases hm : m.more
+      · simp only [mulRun, hm]; exact (bwd_once ev _ b []).2
+      · simp only [mulRun, hm]; exact (bwd_top hev hR b).1
+    | none => exact allFwd_ok hev hR m
+
+theorem mulRun_some {g : Graph} {ev : Ev} {R : Rel} (hev : Correct (nodes g) ev R) (hR : Iso (nodes g) R)
+    (m : Mod) (a : Term) (o : Option Term) (x y : Term) :
+    (x, y) ∈ (mulRun g ev m (some a) o).1 ↔
+      x = a ∧ (∀ b, o = some b → y = b) ∧ (if m.more = true then TransGen R a y else R a y) := by
+  cases hm : m.more
+  · simp only [mulRun, hm, (fwd_once ev o _ a []).1, List.mem_filter, hev (some a) none x y, okPos_iff,
+      Restr, Bool.false_eq_true, if_false]
+    constructor
+    · rintro ⟨⟨r, e, _⟩, h⟩
+      have := e a rfl
+      exact ⟨this, h, this ▸ r⟩
+    · rintro ⟨rfl, h, r⟩
+      exact ⟨⟨r, by simp⟩, h⟩
+  · simp only [mulRun, hm, (fwd_top hev hR o a).2 x y, okPos_iff, if_true]
+
+theorem mulRun_none_some {g : Graph} {ev : Ev} {R : Rel} (hev : Correct (nodes g) ev R)
+    (hR : Iso (nodes g) R) (m : Mod) (b : Term) (x y : Term) :
+    (x, y) ∈ (mulRun g ev m none (some b)).1 ↔
+      y = b ∧ (if m.more = true then TransGen R x b else R x b) := by
+  cases hm : m.more
+  · simp only [mulRun, hm, (bwd_once ev _ b []).1 x y, hev none (some b) x y, Restr, Bool.false_eq_true,
+      if_false]
+    constructor
+    · rintro ⟨r, _, e, _⟩
+      have := e b rfl
+      exact ⟨this, this ▸ r⟩
+    · rintro ⟨rfl, r⟩
+      exact ⟨r, by simp⟩
+  · simp only [mulRun, hm, (bwd_top hev hR b).2 x y, if_true]
+
+theorem mulRun_none_none {g : Graph} {ev : Ev} {R : Rel} (hev : Correct (nodes g) ev R)
+    (hR : Iso (nodes g) R) (m : Mod) (x y : Term) :
+    (x, y) ∈ (mulRun g ev m none none).1 ↔ closure m R x y ∧ x ∈ nodes g ∧ y ∈ nodes g :=
+  mem_allFwd hev hR m x y
+
+theorem closure_iff (m : Mod) (R : Rel) (x y : Term) :
+    closure m R x y ↔ (m.zero = true ∧ x = y) ∨ (if m.more = true then TransGen R x y else R x y) := by
+  cases m with
+  | zeroOrOne => simp [closure, Mod.zero, Mod.more]
+  | zeroOrMore =>
+    simp only [closure, Mod.zero, Mod.more, reflTransGen_iff_eq_or_transGen, true_and, if_true]
+    constructor
+    · rintro (e | t)
+      · exact Or.inl e.symm
+      · exact Or.inr t
+    · rintro (e | t)
+      · exact Or.inl e.symm
+      · exact Or.inr t
+  | oneOrMore => simp [closure, Mod.zero, Mod.more]
+
+/-- `MulPath.eval` is correct for the closure of the inner relation -/
+theorem mul_correct {g : Graph} {ev : Ev} {R : Rel} (hev : Correct (nodes g) ev R) (hR : Iso (nodes g) R)
+    (m : Mod) : Correct (nodes g) (mulEval g ev m) (closure m R) := by
+  intro s o x y
+  have hz : (x, y) ∈ (if m.zero = true then zeroPairs s o else []) ↔
+      m.zero = true ∧ (s ≠ none ∨ o ≠ none) ∧ x = y ∧ (∀ a, s = some a → x = a) ∧ (∀ b, o = some b → y = b) := by
+    split
+    · next h => simp [mem_zeroPairs, h]
+    · next h => simp [h]
+  simp only [mulEval, List.mem_append, mem_dedupInto, hz]
+  cases s with
+  | some a =>
+    rw [mulRun_some hev hR m a o x y, closure_iff]
+    simp only [Restr, Option.some.injEq, forall_eq', reduceCtorEq, false_imp_iff, and_true, ne_eq,
+      not_false_eq_true, true_or, true_and]
+    constructor
+    · rintro (⟨h0, rfl, rfl, h⟩ | ⟨⟨rfl, h, t⟩, _⟩)
+      · exact ⟨Or.inl ⟨h0, rfl⟩, rfl, h⟩
+      · exact ⟨Or.inr t, rfl, h⟩
+    · rintro ⟨(⟨h0, rfl⟩ | t), rfl, h⟩
+      · exact Or.inl ⟨h0, rfl, rfl, h⟩
+      · by_cases hc : m.zero = true ∧ x = y ∧ x = x ∧ ∀ b, o = some b → y = b
+        · exact Or.inl hc
+        · exact Or.inr ⟨⟨rfl, h, t⟩, hc⟩
+  | none =>
+    cases o with
+    | some b =>
+      rw [mulRun_none_some hev hR m b x y, closure_iff]
+      simp only [Restr, Option.some.injEq, forall_eq', reduceCtorEq, false_imp_iff, true_and, ne_eq,
+        not_true_eq_false, not_false_eq_true, or_true, and_true, implies_true]
+      constructor
+      · rintro (⟨h0, rfl, rfl⟩ | ⟨⟨rfl, t⟩, _⟩)
+        · exact ⟨Or.inl ⟨h0, rfl⟩, rfl⟩
+        · exact ⟨Or.inr t, rfl⟩
+      · rintro ⟨(⟨h0, rfl⟩ | t), rfl⟩
+        · exact Or.inl ⟨h0, rfl, rfl⟩
+        · by_cases hc : m.zero = true ∧ x = y ∧ y = y
+          · exact Or.inl hc
+          · exact Or.inr ⟨⟨rfl, t⟩, hc⟩
+    | none =>
+      rw [mulRun_none_none hev hR m x y]
+      simp [Restr]
+
+
+/-- `InvPath.eval` keeps a duplicate-free answer duplicate-free -/
+theorem nodup_invEval {e : Ev} {s o : Option Term} (h : (e o s).Nodup) : (invEval e s o).Nodup := by
+  simp only [invEval, List.Nodup, List.pairwise_map]
+  refine List.Pairwise.imp ?_ h
+  rintro ⟨a, b⟩ ⟨c, d⟩ hne e
+  simp only [Prod.mk.injEq] at e
+  exact hne (by rw [e.1, e.2])
+
 end RV.C11
